@@ -1056,8 +1056,8 @@ def _ray_geom_mesh_bvh(
 
     if gtype == GeomType.MESH or gtype == GeomType.HFIELD:
       bvh_ids = mesh_bvh_id if gtype == GeomType.MESH else hfield_bvh_id
-      # Public ray API (mjw.ray / mjw.rays) preserves MuJoCo's mj_ray cull rule:
-      # rangefinder sensors and user-facing ray casts always cull back-faces.
+      # Public ray API (mjw.ray / mjw.rays) follows mj_ray and the brute-force path:
+      # a ray starting inside a mesh reports the exit face, back-faces are not culled.
       t, n, u, v, f, geom_mesh_id = ray_mesh_with_bvh(
         bvh_ids,
         geom_dataid[worldid % geom_dataid.shape[0], geomid],
@@ -1066,7 +1066,7 @@ def _ray_geom_mesh_bvh(
         pnt,
         vec,
         min_dist,
-        True,
+        False,
       )
       if t >= 0.0 and t < min_dist:
         return t, n
